@@ -182,7 +182,9 @@ func e2eSequences(c *e2eCtx) error {
 		c.res.Evaluations++
 		c.mu.Unlock()
 		c.count("directed:track-checkout-clean-track")
-		rp := func() map[string]any { return s.replay(map[string]any{"sequence": "track, git checkout -- ., clean, track", "config_desc": s.desc}) }
+		rp := func() map[string]any {
+			return s.replay(map[string]any{"sequence": "track, git checkout -- ., clean, track", "config_desc": s.desc})
+		}
 		t1 := proj.RunGoat(c.goat, s.dir, nil, "track")
 		if t1.Exit != 0 {
 			return // judged by the track e2e
